@@ -144,6 +144,36 @@ fn substitute_ty_params(ty: &tast::Ty, subst: &HashMap<String, tast::Ty>) -> tas
     }
 }
 
+/// Whether an impl of the trait for this type is visible (in the package or its imports).
+fn type_implements(genv: &PackageTypeEnv, trait_name: &str, ty: &tast::Ty) -> bool {
+    fn matches(pattern: &tast::Ty, ty: &tast::Ty) -> bool {
+        match (pattern, ty) {
+            (tast::Ty::TParam { .. }, _) => true,
+            (
+                tast::Ty::TApp { ty: p, args: pa },
+                tast::Ty::TApp { ty: t, args: ta },
+            ) => p == t && pa.len() == ta.len() && pa.iter().zip(ta.iter()).all(|(a, b)| matches(a, b)),
+            (tast::Ty::TTuple { typs: p }, tast::Ty::TTuple { typs: t }) => {
+                p.len() == t.len() && p.iter().zip(t.iter()).all(|(a, b)| matches(a, b))
+            }
+            (tast::Ty::TVec { elem: p }, tast::Ty::TVec { elem: t })
+            | (tast::Ty::TRef { elem: p }, tast::Ty::TRef { elem: t }) => matches(p, t),
+            (
+                tast::Ty::TArray { len: pl, elem: p },
+                tast::Ty::TArray { len: tl, elem: t },
+            ) => pl == tl && matches(p, t),
+            _ => pattern == ty,
+        }
+    }
+    let in_env = |env: &crate::env::GlobalTypeEnv| {
+        env.trait_env
+            .trait_impls
+            .keys()
+            .any(|(name, impl_ty)| name == trait_name && matches(impl_ty, ty))
+    };
+    in_env(genv.current()) || genv.deps.values().any(in_env)
+}
+
 fn instantiate_struct_field_ty(
     diagnostics: &mut Diagnostics,
     struct_def: &crate::env::StructDef,
@@ -532,6 +562,41 @@ impl Typer {
                             });
                         }
                     }
+                    Constraint::Implements {
+                        trait_name,
+                        ty,
+                        function,
+                        in_scope,
+                    } => {
+                        let norm_ty = self.norm(&ty);
+                        let satisfied = match &norm_ty {
+                            // a type parameter of the calling function satisfies its own bounds
+                            tast::Ty::TParam { name } => Some(in_scope.iter().any(|(param, traits)| {
+                                param == name && traits.iter().any(|t| *t == trait_name.0)
+                            })),
+                            other if is_concrete(other) => {
+                                Some(type_implements(genv, &trait_name.0, other))
+                            }
+                            _ => None,
+                        };
+                        match satisfied {
+                            Some(true) => {}
+                            Some(false) => diagnostics.push(Diagnostic::new(
+                                Stage::Typer,
+                                Severity::Error,
+                                format!(
+                                    "{} requires its type argument to implement trait {}, which {:?} does not",
+                                    function, trait_name.0, norm_ty
+                                ),
+                            )),
+                            None => still_pending.push(Constraint::Implements {
+                                trait_name,
+                                ty: norm_ty,
+                                function,
+                                in_scope,
+                            }),
+                        }
+                    }
                     Constraint::OperandDomain { op, ty } => {
                         let norm_ty = self.norm(&ty);
                         match operand_in_domain(genv, op, &norm_ty) {
@@ -848,6 +913,40 @@ impl Typer {
     pub(crate) fn inst_ty(&mut self, ty: &tast::Ty) -> tast::Ty {
         let mut subst: HashMap<String, tast::Ty> = HashMap::new();
         self._go_inst_ty(ty, &mut subst)
+    }
+
+    /// Instantiates the type of the function `name` for one use of it, and records what the
+    /// function's trait bounds ask of the type arguments of this use.
+    pub(crate) fn inst_fn_ty(
+        &mut self,
+        genv: &PackageTypeEnv,
+        in_scope: Vec<(String, Vec<String>)>,
+        name: &str,
+        func_ty: &tast::Ty,
+    ) -> tast::Ty {
+        let mut subst: HashMap<String, tast::Ty> = HashMap::new();
+        let inst = self._go_inst_ty(func_ty, &mut subst);
+        let bounds = genv
+            .current()
+            .fn_bounds
+            .get(name)
+            .or_else(|| genv.deps.values().find_map(|dep| dep.fn_bounds.get(name)));
+        if let Some(bounds) = bounds {
+            for (param, traits) in bounds.iter() {
+                let Some(ty) = subst.get(param) else {
+                    continue;
+                };
+                for trait_name in traits.iter() {
+                    self.push_constraint(Constraint::Implements {
+                        trait_name: TastIdent(trait_name.clone()),
+                        ty: ty.clone(),
+                        function: name.to_string(),
+                        in_scope: in_scope.clone(),
+                    });
+                }
+            }
+        }
+        inst
     }
 
     fn _go_inst_ty(&mut self, ty: &tast::Ty, subst: &mut HashMap<String, tast::Ty>) -> tast::Ty {
